@@ -34,8 +34,68 @@ func cNames(xs []string) string {
 }
 
 type wfsWorld struct {
-	root  string
-	paths []string // absolute paths, index = id
+	root    string
+	paths   []string // absolute paths, index = id
+	linkIDs map[string]int
+}
+
+// identifier of a resolved path (what EvalSymlinks returned): the id of a path
+// of interest, or a fresh number
+func (w *wfsWorld) pathID(p string) int {
+	for i, q := range w.paths {
+		if q == p {
+			return i
+		}
+	}
+	if w.linkIDs == nil {
+		w.linkIDs = map[string]int{}
+	}
+	if id, ok := w.linkIDs[p]; ok {
+		return id
+	}
+	id := 100 + len(w.linkIDs)
+	w.linkIDs[p] = id
+	return id
+}
+
+func (w *wfsWorld) cOptPath(p string, ok bool) string {
+	if !ok || p == "" {
+		return "None"
+	}
+	return fmt.Sprintf("(Some %d)", w.pathID(p))
+}
+
+// what realFS.kind would answer for every entry name of interest in the two
+// directories: (dir id, name, kind, is symlink, EvalSymlinks result)
+func (w *wfsWorld) kinds(names []string) string {
+	var items []string
+	for _, d := range []int{0, 1} {
+		for _, n := range names {
+			entry := filepath.Join(w.paths[d], n)
+			kind, islink := 0, false
+			ev, everr := filepath.EvalSymlinks(entry)
+			if st, err := os.Lstat(entry); err == nil {
+				if st.Mode()&os.ModeSymlink != 0 {
+					islink = true
+					if everr == nil {
+						if st2, err2 := os.Lstat(ev); err2 == nil {
+							if st2.IsDir() {
+								kind = 1
+							} else {
+								kind = 2
+							}
+						}
+					}
+				} else if st.IsDir() {
+					kind = 1
+				} else {
+					kind = 2
+				}
+			}
+			items = append(items, fmt.Sprintf("(%d, %s, %d, %s, %s)", d, cName(n), kind, CBool(islink), w.cOptPath(ev, everr == nil)))
+		}
+	}
+	return "[" + strings.Join(items, "; ") + "]"
 }
 
 func contentsID(s string) int {
@@ -161,6 +221,18 @@ func streamWatchFS(seed uint64, n int, tmp string, cf *CoqFile) *Stats {
 		if r.Chance(30) {
 			write(filepath.Join(root, "d0", "other.txt"), false)
 		}
+		// symlinks: one to an existing file (or to B.js), one possibly dangling
+		relink := func(name, target string) {
+			p := filepath.Join(root, "d0", name)
+			os.RemoveAll(p)
+			must(os.Symlink(target, p))
+		}
+		if r.Chance(60) {
+			relink("lnk.js", r.Pick([]string{"a.js", "B.js"}))
+		}
+		if r.Chance(40) {
+			relink("dang.js", "nothere.js")
+		}
 
 		rfs, err := fs.RealFS(fs.RealFSOptions{AbsWorkingDir: root, WantWatchData: true})
 		must(err)
@@ -176,7 +248,9 @@ func streamWatchFS(seed uint64, n int, tmp string, cf *CoqFile) *Stats {
 			name string
 		}
 		var obsLog []obsRec
-		names := []string{"a.js", "A.JS", "B.js", "b.js", "gone.js", "new.ts", "sub", "x.js"}
+		names := []string{"a.js", "A.JS", "B.js", "b.js", "gone.js", "new.ts", "sub", "x.js", "lnk.js", "dang.js"}
+		baseNames := []string{"a.js", "B.js", "gone.js", "new.ts", "sub", "x.js", "lnk.js", "dang.js", "nothere.js", "other.txt", "unrelated.md"}
+		k1 := w.kinds(baseNames)
 		dirIDs := []int{0, 1}
 		fileIDs := []int{2, 3, 4, 5}
 		mixed := r.Chance(25) // also use directory paths as files and file paths as directories
@@ -206,16 +280,27 @@ func streamWatchFS(seed uint64, n int, tmp string, cf *CoqFile) *Stats {
 					doReadDir(id)
 				}
 				nm := names[r.Intn(len(names))]
+				if r.Chance(30) {
+					nm = r.Pick([]string{"lnk.js", "dang.js"})
+				}
 				entry, _ := dirEntries[id].Get(nm)
 				logItems = append(logItems, fmt.Sprintf("(1, %d, %s)", id, cName(nm)))
 				logDesc = append(logDesc, "Get "+rel[id]+" "+nm)
 				obsLog = append(obsLog, obsRec{1, id, nm})
-				if entry != nil && r.Chance(50) {
-					// Entry.Kind / Entry.Symlink (realFS.kind: lstat): must leave no watch record
+				if entry != nil && r.Chance(60) {
+					// Entry.Kind / Entry.Symlink (realFS.kind): records the target of a symlink entry only
 					entry.Kind(rfs)
 					entry.Symlink(rfs)
-					logItems = append(logItems, fmt.Sprintf("(5, %d, %s)", id, cName(nm)))
-					logDesc = append(logDesc, "Kind "+rel[id]+" "+nm)
+					base := nm
+					if ents, err := os.ReadDir(w.paths[id]); err == nil {
+						for _, e := range ents {
+							if strings.EqualFold(e.Name(), nm) {
+								base = e.Name()
+							}
+						}
+					}
+					logItems = append(logItems, fmt.Sprintf("(5, %d, %s)", id, cName(base)))
+					logDesc = append(logDesc, "Kind "+rel[id]+" "+base)
 				}
 			case 5:
 				id := dirIDs[r.Intn(2)]
@@ -256,6 +341,7 @@ func streamWatchFS(seed uint64, n int, tmp string, cf *CoqFile) *Stats {
 			idOf[p] = i
 		}
 		var obsItems []string
+		recLinks := fs.VerifWatchSymlinks(rfs)
 		for _, e := range fs.VerifWatchStates(rfs) {
 			id, ok := idOf[e.Path]
 			if !ok {
@@ -274,14 +360,36 @@ func streamWatchFS(seed uint64, n int, tmp string, cf *CoqFile) *Stats {
 			if e.HasAll {
 				all = "(Some " + cNames(e.AllEntries) + ")"
 			}
-			obsItems = append(obsItems, fmt.Sprintf("(%d, %d, %s, %d, [%s], %s)", id, e.State, encKey(e.ModKey), contentsID(e.FileContents), strings.Join(pres, "; "), all))
+			var lnames []string
+			for k := range recLinks[e.Path] {
+				lnames = append(lnames, k)
+			}
+			sort.Strings(lnames)
+			var links []string
+			for _, k := range lnames {
+				links = append(links, fmt.Sprintf("(%s, %s)", cName(k), w.cOptPath(recLinks[e.Path][k], true)))
+			}
+			obsItems = append(obsItems, fmt.Sprintf("(%d, %d, %s, %d, [%s], %s, [%s])", id, e.State, encKey(e.ModKey), contentsID(e.FileContents), strings.Join(pres, "; "), all, strings.Join(links, "; ")))
 		}
 		wd := rfs.WatchData()
 
 		// the edit
 		var editDesc []string
 		for e := r.Range(0, 2); e > 0; e-- {
-			switch r.Intn(9) {
+			switch r.Intn(13) {
+			case 9:
+				relink("lnk.js", r.Pick([]string{"a.js", "B.js", "gone.js"}))
+				editDesc = append(editDesc, "re-point (or create) symlink d0/lnk.js")
+			case 10:
+				write(filepath.Join(root, "d0", "nothere.js"), false)
+				editDesc = append(editDesc, "create d0/nothere.js (target of the dangling symlink)")
+			case 11:
+				os.Remove(filepath.Join(root, "d0", "lnk.js"))
+				write(filepath.Join(root, "d0", "lnk.js"), false)
+				editDesc = append(editDesc, "replace d0/lnk.js by a plain file")
+			case 12:
+				relink("dang.js", r.Pick([]string{"nothere.js", "a.js"}))
+				editDesc = append(editDesc, "re-point (or create) symlink d0/dang.js")
 			case 0, 1:
 				write(w.paths[2], r.Chance(20))
 				editDesc = append(editDesc, "rewrite d0/a.js")
@@ -310,6 +418,7 @@ func streamWatchFS(seed uint64, n int, tmp string, cf *CoqFile) *Stats {
 			}
 		}
 		w2, raw2 := w.snapshot(plain)
+		k2 := w.kinds(baseNames)
 		var dirty []int64
 		for p, fn := range wd.Paths {
 			if fn() != "" {
@@ -318,7 +427,7 @@ func streamWatchFS(seed uint64, n int, tmp string, cf *CoqFile) *Stats {
 		}
 		sort.Slice(dirty, func(i, j int) bool { return dirty[i] < dirty[j] })
 
-		item := fmt.Sprintf("(%s,\n  [%s],\n  [%s],\n  %s,\n  %s)", w1, strings.Join(logItems, "; "), strings.Join(obsItems, "; "), w2, CZList(dirty))
+		item := fmt.Sprintf("(%s,\n  %s,\n  [%s],\n  [%s],\n  %s,\n  %s,\n  %s)", w1, k1, strings.Join(logItems, "; "), strings.Join(obsItems, "; "), w2, k2, CZList(dirty))
 		items = append(items, item)
 		st.Note("watchfs-case", fmt.Sprint(c), len(editDesc) > 0)
 		if c < 2 {
